@@ -188,6 +188,7 @@ def emit(rt, gen_dir):
     P.append("-- GENERATED by /verif/translator/rk2lean.py; per-method proof obligations of C19")
     P.append("import RenoVerif.Gen.RK")
     P.append("import RenoVerif.Props.C19")
+    P.append("import RenoVerif.Model.RKStep")
     P.append("namespace RenoVerif.RK.Gen")
     names = []
     for m, t in rt.items():
@@ -211,6 +212,8 @@ def emit(rt, gen_dir):
                      f"Phi {n}_a {n}_b{i} c * (((1 + c.size) * c.G : Nat) : Rat) = 1 := "
                      f"orderOK_sound _ _ _ order_{n}_row{i}")
             P.append(f"theorem ti_{n}_row{i} : tiTaylorOK {n}_a {n}_b{i} {p} = true := by decide +kernel")
+            P.append(f"theorem poly_{n}_row{i} : RenoVerif.RKStep.eqPoly (RenoVerif.RKStep.polyCoeffs {n}_a {n}_b{i}) "
+                     f"(tiCoeff {n}_a {n}_b{i}) = true := by decide +kernel")
     L.append("/-- (python name, rows of b, orders, stage) -/")
     L.append("def methods : List (String × Mat × List Vec × Vec × Nat × List Nat) := [")
     ent = []
